@@ -103,7 +103,15 @@ impl Partial {
         }
         put_u64(&mut out, self.violations.len() as u64);
         for v in &self.violations {
-            for s in [&v.kind, &v.routine, &v.call, &v.input, &v.expected, &v.actual, &v.note] {
+            for s in [
+                &v.kind,
+                &v.routine,
+                &v.call,
+                &v.input,
+                &v.expected,
+                &v.actual,
+                &v.note,
+            ] {
                 put_str(&mut out, s);
             }
         }
@@ -116,7 +124,12 @@ impl Partial {
 
     pub fn deserialize(buf: &[u8]) -> Option<Partial> {
         let mut r = Reader { b: buf, p: 0 };
-        let mut p = Partial { evaluations: r.u64()?, distinct: r.u64()?, cases: r.u64()?, ..Default::default() };
+        let mut p = Partial {
+            evaluations: r.u64()?,
+            distinct: r.u64()?,
+            cases: r.u64()?,
+            ..Default::default()
+        };
         for _ in 0..r.u64()? {
             let k = r.str()?;
             let v = r.u64()?;
@@ -194,7 +207,7 @@ pub fn json_str(s: &str) -> String {
             '\t' => o.push_str("\\t"),
             c if (c as u32) < 0x20 => {
                 let _ = write!(o, "\\u{:04x}", c as u32);
-            },
+            }
             c => o.push(c),
         }
     }
@@ -242,7 +255,11 @@ pub struct BuildInfo {
 pub fn build_info() -> BuildInfo {
     BuildInfo {
         nightly: cfg!(feature = "nightly"),
-        profile: if cfg!(debug_assertions) { "debug" } else { "release" },
+        profile: if cfg!(debug_assertions) {
+            "debug"
+        } else {
+            "release"
+        },
         xconst: cfg!(feature = "xconst"),
     }
 }
@@ -264,8 +281,12 @@ impl Report {
             ("profile", json_str(b.profile)),
             ("xconst", b.xconst.to_string()),
         ]);
-        let hist: Vec<(&str, String)> =
-            self.body.hist.iter().map(|(k, v)| (k.as_str(), v.to_string())).collect();
+        let hist: Vec<(&str, String)> = self
+            .body
+            .hist
+            .iter()
+            .map(|(k, v)| (k.as_str(), v.to_string()))
+            .collect();
         let viols: Vec<String> = self
             .body
             .violations
@@ -275,7 +296,14 @@ impl Report {
                     ("kind", json_str(&v.kind)),
                     ("routine", json_str(&v.routine)),
                     ("call", json_str(&v.call)),
-                    ("input", if v.input.is_empty() { "{}".to_string() } else { v.input.clone() }),
+                    (
+                        "input",
+                        if v.input.is_empty() {
+                            "{}".to_string()
+                        } else {
+                            v.input.clone()
+                        },
+                    ),
                     ("expected", json_str(&v.expected)),
                     ("actual", json_str(&v.actual)),
                     ("note", json_str(&v.note)),
